@@ -141,7 +141,9 @@ func VerifC13Split() {
 // families; the list c13Orbits is generated from the unicode tables at run
 // time) and every ordered pair (x, y) of one orbit: s = ASCII byte ++ x ++
 // optional ASCII byte, sub = y ++ optional ASCII byte, so that the match is
-// away from offset 0.
+// away from offset 0; and every quadruple: s = ASCII byte ++ x ++ x2 ++
+// optional ASCII byte, sub = y ++ y2 (members of different UTF-8 widths in
+// windows of equal byte length).
 func VerifC13FoldOrbits() {
 	orbit := c13Orbits[verifrt.Choice(len(c13Orbits))]
 	x := orbit[verifrt.Choice(len(orbit))]
@@ -150,7 +152,20 @@ func VerifC13FoldOrbits() {
 	verifrt.Assume(a < 0x80)
 	s := string([]byte{a}) + string(x)
 	sub := string(y)
-	if verifrt.Bool2() {
+	switch verifrt.Choice(3) {
+	case 1:
+		// two runes of the orbit on each side: windows of equal byte length
+		// whose runes differ in width position by position
+		x2 := orbit[verifrt.Choice(len(orbit))]
+		y2 := orbit[verifrt.Choice(len(orbit))]
+		s += string(x2)
+		sub += string(y2)
+		if verifrt.Bool2() {
+			c := verifrt.Byte()
+			verifrt.Assume(c < 0x80)
+			s += string([]byte{c})
+		}
+	case 2:
 		c := verifrt.Byte()
 		verifrt.Assume(c < 0x80)
 		s += string([]byte{c})
